@@ -829,6 +829,7 @@ func (i *interpreter) runPath(harness *ssa.Function, prefix []int64) (pending []
 	ex.sched = nil
 	ex.curFn = map[*ssa.Function]bool{}
 	ex.pathAssum = nil
+	i.spawnSync, i.preemptAfterSend, i.preemptsLeft = false, false, 0 // harness opt-ins never leak into the next path
 	ex.logging = true
 	end := "ok"
 	unsupported := ""
